@@ -403,13 +403,54 @@ class OpaqueString(Plugin):
         if nm == 'empty': return '(%s->size == 0)' % f
         if nm in ('size', 'length'): return '(%s->size)' % f
         if nm in ('c_str', 'data'): return '((const char *)0)'
+        if nm == 'substr' and args:
+            real = [a for a in args if a.get('kind') != 'CXXDefaultArgExpr']
+            unit.stmt_may_throw = True
+            return 'v_str_substr2(%s, %s, %s)' % (f, unit.expr(real[0]), unit.expr(real[1]) if len(real) > 1 else 'V_NPOS')
         if nm == 'substr': return 'v_str_substr(%s)' % f
+        if nm in ('find', 'find_first_of', 'find_first_not_of', 'rfind', 'find_last_of'):
+            real = [a for a in args if a.get('kind') != 'CXXDefaultArgExpr']
+            pos = unit.expr(real[1]) if len(real) > 1 else '0'
+            if nm == 'find' and self.is_str(real[0]): ln = '(%s)->size' % unit.addr_of(real[0])
+            elif nm == 'find' and self.is_cstr(unit.strip(real[0])):
+                sl = unit.strip(real[0])
+                while sl.get('kind') in ('ImplicitCastExpr',) and unit.kids(sl): sl = unit.kids(sl)[0]
+                ln = str(len(eval(sl['value']))) if sl.get('kind') == 'StringLiteral' else '1'
+            else: ln = '1'
+            if nm in ('rfind', 'find_last_of'): raise Unsupported('std::string::%s (in %s)' % (nm, unit.cur))
+            return 'v_str_find(%s, %s, %s)' % (f, pos, ln)
+        if nm == 'compare': return '((void)%s, v_nondet_int())' % f
         if nm == 'clear': return 'v_str_clear(%s)' % f
         if nm in ('pop_back',): return 'v_str_pop_back(%s)' % f
         if nm in ('erase',): return 'v_str_erase(%s, %s)' % (f, ', '.join(unit.expr(a) for a in args))
         if nm in ('insert',): return 'v_str_insert(%s, %s)' % (f, unit.expr(args[0]))
         if nm in ('push_back',): return 'v_str_push_back(%s)' % f
         raise Unsupported('std::string::%s on the opaque string model (in %s)' % (nm, unit.cur))
+    def global_var(self, name): return 'V_NPOS' if name == 'npos' else None
+    def range_for(self, unit, n, ind):
+        ks = [c for c in n.get('inner', []) if c.get('kind')]
+        body = ks[-1]; loopvar = None; rng = None
+        for c in ks[:-1]:
+            if c['kind'] == 'DeclStmt':
+                for v in unit.kids(c):
+                    if v.get('kind') != 'VarDecl': continue
+                    if v.get('name', '').startswith('__range'): rng = v
+                    elif not v.get('name', '').startswith('__'): loopvar = v
+        if rng is None or loopvar is None or not self.is_str(unit.strip_tmp(unit.kids(rng)[0])): return False
+        # characters of an opaque string: any values, one per position
+        p = '  ' * ind
+        unit.loop_no += 1; ln = unit.loop_no
+        unit.w(p + '{')
+        unit.w(p + '  struct v_str *__r%d = %s; size_t __i%d = 0;' % (ln, unit.addr_of(unit.strip_tmp(unit.kids(rng)[0])), ln))
+        unit.ghost('before_loop:%d' % ln, p + '  ')
+        unit.w(p + '  for (; __i%d < __r%d->size; ++__i%d)' % (ln, ln, ln))
+        unit.loopc(ln, p + '  ')
+        txt, is_ref = unit.decl_text(loopvar, loopvar['name'])
+        unit.local_names[loopvar['id']] = (loopvar['name'], False)
+        unit.loop_body(body, ind + 1, ln, first_stmt='%s = (char)v_nondet_int();' % txt.replace('*', ''))
+        unit.ghost('after_loop:%d' % ln, p + '  ')
+        unit.w(p + '}')
+        return True
     def is_cstr(self, node):
         t = node.get('type', {}).get('qualType', '')
         return bool(re.match(r'^const char ?(\*|\[\d*\])$', t.strip()))
@@ -435,8 +476,8 @@ class OpaqueString(Plugin):
         ks = unit.kids(n)
         if len(ks) == 1 and self.is_str(ks[0]): return '(*%s)' % unit.addr_of(ks[0])
         if not ks: return '((struct v_str){0, 0})'
-        if self.is_cstr(unit.strip(ks[0])): return 'v_str_any()'      # from a C string: contents abstract
         real = [k for k in ks if k['kind'] != 'CXXDefaultArgExpr']
+        if len(real) == 1 and self.is_cstr(unit.strip(ks[0])): return 'v_str_any()'      # from a C string: contents abstract
         if len(real) == 2 and self.is_cstr(unit.strip(real[0])) and unit.is_intlike(real[1]):      # string(ptr, n): reads n bytes at ptr
             return 'v_str_from(%s, %s)' % (unit.expr(real[0]), unit.expr(real[1]))
         if len(real) == 2 and unit.is_intlike(real[0]):      # string(n, ch)
@@ -589,6 +630,11 @@ class OpaqueTypes(Plugin):
         # iterators of opaque containers are scalars (opaque positions): only (in)equality is supported
         if rd.get('name') in ('operator!=', 'operator==') and len(args) == 2 and all(self._scalar_it(unit, a) for a in args):
             return '(%s %s %s)' % (unit.expr(args[0]), rd['name'][-2:], unit.expr(args[1]))
+        if rd.get('name') == 'operator[]' and len(args) == 2 and self._ct(unit, args[0]):
+            # map[key]: the mapped value lives behind a stub `<T> *<struct>__index(map, key)` (records by address)
+            ct = self._ct(unit, args[0]); fn = '%s__index' % ct[len('struct '):]
+            unit.count_call(fn)
+            return '(*%s(%s, %s))' % (fn, unit.addr_of(args[0]), unit.addr_of(args[1]) if unit.is_record_type(args[1]) else unit.expr(args[1]))
         if rd.get('name') == 'operator->' and len(args) == 1 and self._scalar_it(unit, args[0]):
             return 'v_map_it_deref(%s)' % unit.expr(args[0])
         return None
